@@ -30,6 +30,8 @@ type Roles struct {
 	ErrChans    []*types.Var // struct fields of type chan error
 	Done        *types.Var
 	CloseFns    []*ssa.Function // functions containing close(done)
+	ChanClosers map[*ssa.Function]int // functions that close their channel parameter #i (methods of a named channel type)
+	ChanTesters map[*ssa.Function]int // functions that poll their channel parameter #i and answer with a bool
 	IsClosed    []*ssa.Function
 	SendEvent   []*ssa.Function
 	SendError   []*ssa.Function
@@ -355,6 +357,76 @@ func discoverRoles(p *Program, e *Engine) (*Roles, error) {
 			}
 		}
 	}
+	// the done channel behind a small named channel type with methods (`type closeSignal chan struct{}` with raise() /
+	// raised()): a function that closes, or polls, its channel PARAMETER passes that role on to every caller that hands
+	// it the done field
+	if ro.Done != nil {
+		type prm struct {
+			fn  *ssa.Function
+			idx int
+		}
+		var closers, testers []prm
+		paramIdx := func(fn *ssa.Function, v ssa.Value) int {
+			for i, q := range fn.Params {
+				if ssa.Value(q) == stripConv(v) {
+					return i
+				}
+			}
+			return -1
+		}
+		for _, fn := range p.srcFuncs(p.Main) {
+			for _, b := range fn.Blocks {
+				for _, in := range b.Instrs {
+					switch x := in.(type) {
+					case *ssa.Call:
+						if bi, ok := x.Call.Value.(*ssa.Builtin); ok && bi.Name() == "close" && len(x.Call.Args) == 1 {
+							if i := paramIdx(fn, x.Call.Args[0]); i >= 0 && isChanOf(fn.Params[i].Type(), isEmptyStruct) {
+								closers = append(closers, prm{fn, i})
+							}
+						}
+					case *ssa.Select:
+						if !x.Blocking && len(x.States) == 1 && x.States[0].Dir == types.RecvOnly {
+							if i := paramIdx(fn, x.States[0].Chan); i >= 0 && isChanOf(fn.Params[i].Type(), isEmptyStruct) &&
+								fn.Signature.Results().Len() == 1 && isBoolType(fn.Signature.Results().At(0).Type()) {
+								testers = append(testers, prm{fn, i})
+							}
+						}
+					}
+				}
+			}
+		}
+		ro.ChanClosers, ro.ChanTesters = map[*ssa.Function]int{}, map[*ssa.Function]int{}
+		for _, c := range closers {
+			ro.ChanClosers[c.fn] = c.idx
+		}
+		for _, c := range testers {
+			ro.ChanTesters[c.fn] = c.idx
+		}
+		if len(closers)+len(testers) > 0 {
+			for _, fn := range p.srcFuncs(p.Main) {
+				for _, b := range fn.Blocks {
+					for _, in := range b.Instrs {
+						call, ok := in.(*ssa.Call)
+						if !ok || call.Call.StaticCallee() == nil {
+							continue
+						}
+						cal := call.Call.StaticCallee()
+						for _, c := range closers {
+							if c.fn == cal && c.idx < len(call.Call.Args) && fieldOf(call.Call.Args[c.idx]) == ro.Done {
+								ro.CloseFns = appendFn(ro.CloseFns, fn)
+							}
+						}
+						for _, c := range testers {
+							if c.fn == cal && c.idx < len(call.Call.Args) && fieldOf(call.Call.Args[c.idx]) == ro.Done &&
+								fn.Signature.Results().Len() == 1 && isBoolType(fn.Signature.Results().At(0).Type()) {
+								ro.IsClosed = appendFn(ro.IsClosed, fn)
+							}
+						}
+					}
+				}
+			}
+		}
+	}
 	// a function that closes done is not a closed-test, even if it contains the test inline
 	var pureTests []*ssa.Function
 	for _, f := range ro.IsClosed {
@@ -415,6 +487,9 @@ func discoverRoles(p *Program, e *Engine) (*Roles, error) {
 		for _, f := range l {
 			e.NoExpand[f] = true
 		}
+	}
+	for f := range ro.ChanTesters {
+		e.NoExpand[f] = true // done.raised() stays the opaque closed-test, like isClosed()
 	}
 	// readers: go statements reachable from the constructor
 	w := e.Walk(ro.Ctor, WalkOpts{NoCond: true})
@@ -559,6 +634,11 @@ func (ro *Roles) closedLit(l Lit) (isTest, saysClosed bool) {
 	}
 	if l.A.Kind == AkPred && l.A.Callee != nil && ro.isIsClosed(l.A.Callee) {
 		return true, !l.Neg
+	}
+	if l.A.Kind == AkPred && l.A.Callee != nil && l.A.Call != nil && l.A.Ctx != nil {
+		if i, ok := ro.ChanTesters[l.A.Callee]; ok && i < len(l.A.Call.Call.Args) && l.A.Ctx.fieldOfValue(l.A.Call.Call.Args[i]) == ro.Done {
+			return true, !l.Neg // done.raised(): the poll of a channel-typed receiver, handed the done field
+		}
 	}
 	if l.A.Kind == AkCmp && l.A.Op == "==" && l.A.K == "c:0" && l.A.Ctx != nil {
 		if b, ok := l.A.V.(*ssa.BinOp); ok {
